@@ -1699,11 +1699,23 @@ def build_c_fields(ctx, cb, layouts):
 class Pipeline(object):
     """everything needed to push one GIR through the real compiler and the readers"""
 
-    def __init__(self, ctx):
+    @staticmethod
+    def start_c_build(ctx):
+        """compile /repo's C sources in the background (it does not touch lean/), so that it overlaps the proof step"""
+        import cbuild
+        ex = concurrent.futures.ThreadPoolExecutor(max_workers=1)
+        fut = ex.submit(lambda: cbuild.CBuild(os.path.join(ctx.scratch, 'cobj')).compile_all())
+        ex.shutdown(wait=False)
+        return fut
+
+    def __init__(self, ctx, cb_future=None):
         import cbuild
         self.ctx = ctx
         self.cbuild = cbuild
-        self.cb = cbuild.CBuild(os.path.join(ctx.scratch, 'cobj')).compile_all()
+        if cb_future is not None:
+            self.cb = cb_future.result()          # re-raises a HarnessError of the build
+        else:
+            self.cb = cbuild.CBuild(os.path.join(ctx.scratch, 'cobj')).compile_all()
         self.compiler = self.cb.compiler()
         self.tags, self.blobs = load_enum_tables(ctx)
         self.validate = None
@@ -1778,7 +1790,7 @@ class Pipeline(object):
 
     def decode_many(self, datas, with_fields=False):
         reqs = [{'op': 'c06.decode', 'b64': base64.b64encode(d).decode('ascii'),
-                 'with_fields': bool(with_fields and len(d) < 2000000)} for d in datas]
+                 'with_fields': bool(with_fields and len(d) < 1000000)} for d in datas]
         return self.ctx.driver.batch(reqs)
 
     def c_fields_many(self, jobs):
@@ -2377,8 +2389,10 @@ def dirindex_correspondence(ctx, judge, cnt):
 def run(ctx):
     cnt = Counter()
     register_pending(ctx)
+    cb_future = Pipeline.start_c_build(ctx)
     ctx.prove(['gen_typelib_layout', 'gen_typelib_consts'], ['GIVerif.Props.C06'], 'GIVerif.Props.C06')
-    pipe = Pipeline(ctx)
+    ctx.log('proofs checked')
+    pipe = Pipeline(ctx, cb_future)
     ctx.log('C build done')
     rng = ctx.rng
     judge = Judge(ctx, pipe, cnt)
